@@ -927,8 +927,74 @@ func c13Scenarios(th bool) []vx.Scenario {
 	return out
 }
 
+// c12Malformed: on an open session, one data post with an odd or malformed body (and the same for
+// poll and close), then an ordinary data post: no panic, an answer to every call, the session still works.
+func c12Malformed(action, body string, injection bool) vx.Scenario {
+	return vx.Scenario{Name: fmt.Sprintf("c12/malformed/%s/injection=%v/%s", action, injection, clip(body)), PB: 0, Single: true, MaxSteps: 20000, MaxTime: time.Minute,
+		Setup: func(s *vs.Sched) func(*vs.Result) vx.Exec {
+			w := newWorld(injection)
+			var odd, after *callResult
+			s.Thread("driver", func() {
+				w.call("open", "ws://client.example/s", nil)
+				odd = &callResult{}
+				odd = w.call(action, body, nil)
+				vs.Quiesce()
+				after = &callResult{}
+				after = w.call("data", `[{"id":"1","msg":"after"}]`, nil)
+				vs.Quiesce()
+			})
+			s.DaemonThread("backend-reader", func() {
+				vs.Wait("backend: connection", nil, func() bool { return len(w.servers) > 0 })
+				for {
+					if _, _, err := w.servers[0].ReadMessage(); err != nil {
+						return
+					}
+				}
+			})
+			return func(r *vs.Result) vx.Exec {
+				var x vx.Exec
+				base(r, &x)
+				if odd == nil || !odd.done {
+					if len(r.Panics) == 0 {
+						x.Violations = append(x.Violations, fmt.Sprintf("NOANSWER: %s %s was never answered", action, clip(body)))
+					}
+					return x
+				}
+				x.Obs = fmt.Sprintf("%s %s -> %d; then data -> %d", action, clip(body), odd.status, after.status)
+				if odd.status != 200 && odd.status != 400 && odd.status != 408 {
+					x.Violations = append(x.Violations, fmt.Sprintf("STATUS: %s %s answered %d", action, clip(body), odd.status))
+				}
+				closedByCall := action == "close" && odd.status == 200
+				if !closedByCall && after != nil && after.done && after.status != 200 && len(r.Panics) == 0 {
+					x.Violations = append(x.Violations, fmt.Sprintf("SESSION-BROKEN: after %s %s (answered %d) an ordinary data post on the open session answered %d", action, clip(body), odd.status, after.status))
+				}
+				return x
+			}
+		}}
+}
+
+func c12MalformedAll() []vx.Scenario {
+	var out []vx.Scenario
+	data := []string{
+		`[{"id":"1","msg":[]}]`, `[{"id":"1","msg":[1]}]`, `[{"id":"1","msg":["a","b"]}]`, `[{"id":"1","msg":[""]}]`, `[{"id":"1","msg":["!!not-base64"]}]`,
+		`[{"id":"1","msg":["aGk="]}]`, `[{"id":"1","msg":{}}]`, `[{"id":"1","msg":null}]`, `[{"id":"1"}]`, `[{"msg":"x"}]`, `[null]`, `[[]]`, `[]`, `""`, `null`,
+		`{"id":"1","msg":"x"}`, `[{"id":1,"msg":"x"}]`, `[{"id":"1","msg":true}]`, `[{"id":"1","msg":1e400}]`, `[{"id":"1","msg":"x"},{"id":"1","msg":[]}]`,
+		`[{"id":"1","msg":"{\"resource\":{\"headers\":[]}}"}]`, `[{"id":"1","msg":"{\"resource\":null}"}]`, `[{"id":"1","msg":"{\"resource\":{\"headers\":{\"a\":1}}}"}]`,
+	}
+	for _, inj := range []bool{false, true} {
+		for _, b := range data {
+			out = append(out, c12Malformed("data", b, inj))
+		}
+	}
+	for _, b := range []string{`{"id":[]}`, `{"id":1}`, `{"id":null}`, `{}`, `null`, `[]`, `"1"`, `{"id":"1","extra":[]}`} {
+		out = append(out, c12Malformed("poll", b, false), c12Malformed("close", b, false))
+	}
+	return out
+}
+
 func c12Scenarios(th bool) []vx.Scenario {
 	var out []vx.Scenario
+	out = append(out, c12MalformedAll()...)
 	al := c12Alphabet()
 	depth := 4
 	if th {
